@@ -227,7 +227,7 @@ def split_top(s, sep=','):
     return out
 
 
-CLAUSES = ('threadlocal', 'rely', 'params', 'results', 'takes', 'maypanic', 'requires', 'ensures', 'modifies', 'loop', 'property', 'assume', 'trusted', 'inline', 'panics', 'note', 'spawns', 'onpanic', 'decreases', 'ghost', 'reads', 'unroll', 'atexit', 'prestate', 'nosafety', 'lemma')
+CLAUSES = ('threadlocal', 'rely', 'params', 'results', 'takes', 'maypanic', 'requires', 'ensures', 'modifies', 'loop', 'property', 'assume', 'trusted', 'inline', 'panics', 'note', 'spawns', 'onpanic', 'decreases', 'ghost', 'reads', 'unroll', 'atexit', 'prestate', 'nosafety', 'lemma', 'implements')
 
 
 class FuncContract:
@@ -263,6 +263,9 @@ class Contracts:
         self.pures = {}       # name -> (params [(n,t)], rettype, ast, text)
         self.lockwords = []
         self.couples = []
+        self.binds = []       # (properties, 'T.f', func short name, via field or None, [maker funcs], src)
+        self.worldrelies = []  # (text, ast, src): relations old -> new that every `modifies world` step preserves (assumed)
+        self.owned = []       # (properties, ['T.f'], [func short names], src)
         self.files = []
         self.raw = []
 
@@ -306,6 +309,19 @@ class Contracts:
             self.lockwords.append((kw, ' '.join([rest] + [l.strip() for l in lines[1:]]), src)); return
         if kw == 'chan':
             self.chandecls.append((' '.join([rest] + [l.strip() for l in lines[1:]]), src)); return
+        if kw == 'worldrely':
+            body = ' '.join([rest] + [l.strip() for l in lines[1:]])
+            self.worldrelies.append((body, parse_expr(body), src)); return
+        if kw == 'bind':
+            body = ' '.join([rest] + [l.strip() for l in lines[1:]])
+            m = re.match(r'(.*?):\s*([\w.]+)\s*=\s*(\S+)(?:\s+via\s+(\w+))?\s+in\s+(.*)$', body, re.S)
+            if not m: raise ParseError('%s: bad bind decl %r' % (src, body))
+            self.binds.append((m.group(1).split(), m.group(2), m.group(3), m.group(4), m.group(5).split(), src)); return
+        if kw == 'owned':
+            body = ' '.join([rest] + [l.strip() for l in lines[1:]])
+            m = re.match(r'(.*?):(.*?)\bby\b(.*)$', body, re.S)
+            if not m: raise ParseError('%s: bad owned decl %r' % (src, body))
+            self.owned.append((m.group(1).split(), m.group(2).split(), m.group(3).split(), src)); return
         if kw == 'couple':
             self.couples.append((' '.join([rest] + [l.strip() for l in lines[1:]]), src)); return
         if kw in ('func', 'extern', 'functype', 'iface'):
@@ -361,6 +377,26 @@ class Contracts:
         raise ParseError('%s: unknown declaration %r' % (src, head))
 
 
+def link_implements(cs):
+    """`implements I.M` on a method contract: the method must be usable wherever the assumed interface contract I.M is applied at a
+    dynamic call: it may not require more, must ensure at least as much (the interface's ensures are added to the method's own
+    obligations) and may not modify more (checked when the method is verified)"""
+    for fc in list(cs.funcs.values()):
+        tgt = fc.flags.get('implements')
+        if not tgt: continue
+        ic = cs.funcs.get(tgt.strip())
+        if ic is None or ic.kind != 'iface': raise ParseError('%s: implements %s: no such interface contract' % (fc.src, tgt))
+        itexts = set(' '.join(t.split()) for t, _ in ic.requires)
+        for t, _ in fc.requires:
+            if ' '.join(t.split()) not in itexts:
+                raise ParseError('%s: %s requires %r, which the interface contract %s does not give its callers' % (fc.src, fc.name, t, tgt))
+        have = set(' '.join(t.split()) for t, _ in fc.ensures)
+        for t, a in ic.ensures:
+            if ' '.join(t.split()) not in have: fc.ensures.append((t, a))
+        fc.flags['implements_modifies'] = list(ic.modifies or [])
+        if 'results' not in fc.flags and 'results' in ic.flags: fc.flags['results'] = ic.flags['results']
+
+
 def load_contracts(repo='/repo', extra_files=()):
     cs = Contracts()
     files = sorted(glob.glob(os.path.join(repo, '*_verif.go')) + glob.glob(os.path.join(repo, '*', '*_verif.go'))) + list(extra_files)
@@ -390,6 +426,7 @@ def load_contracts(repo='/repo', extra_files=()):
                     if decl is None: raise ParseError('%s:%d: continuation without declaration' % (fn, ln))
                     decl.append(body)
         if decl: cs.add_decl(decl, '%s:%d' % (os.path.basename(fn), start))
+    link_implements(cs)
     return cs
 
 
